@@ -18,6 +18,7 @@ func main() {
 	for _, cs := range probe.Plan() {
 		{
 			custom, sc := cs.Custom, cs.Sc
+			probe.SetCase(cs)
 			// unary server
 			{
 				r := probe.New("grpc/server.go:NewUnaryServerInterceptor.func1", sc, true)
